@@ -28,6 +28,7 @@ Definition is_byte (x : Z) : bool := in_range 0 255 x.
 Definition cdiv (a b : Z) : Z := (a + b - 1) / b.          (* ceiling, a >= 0, b > 0 *)
 Definition b2z (b : bool) : Z := if b then 1 else 0.
 Fixpoint maxZ (l : list Z) : Z := match l with [] => 0 | x :: t => Z.max x (maxZ t) end.
+Definition zrange (n : Z) : list Z := map Z.of_nat (seq 0 (Z.to_nat n)).
 
 (* ------------------------------------------------------------- marker codes *)
 Definition M_SOI := 216. Definition M_EOI := 217. Definition M_SOS := 218.
@@ -362,11 +363,12 @@ Record vstate := {
   vs_dc : list bool; vs_ac : list bool;           (* Huffman table destinations defined *)
   vs_ri : Z;
   vs_scans : nat;
-  vs_coded : list Z                               (* component ids coded so far (sequential) *)
+  vs_coded : list Z;                              (* component ids coded so far (sequential) *)
+  vs_prog : list (Z * list Z)                     (* progressive: per component id, per coefficient the Al reached, -1 = not coded *)
 }.
 Definition vs0 : vstate :=
   {| vs_sof := None; vs_q := repeat false 4; vs_dc := repeat false 4; vs_ac := repeat false 4;
-     vs_ri := 0; vs_scans := O; vs_coded := [] |}.
+     vs_ri := 0; vs_scans := O; vs_coded := []; vs_prog := [] |}.
 
 Fixpoint set_nth {A} (i : nat) (x : A) (l : list A) : list A :=
   match l, i with [], _ => [] | _ :: t, O => x :: t | h :: t, S k => h :: set_nth k x t end.
@@ -395,21 +397,34 @@ Definition scan_comps_ok (fc : list fcomp) (sc : list scomp) : bool :=
   ((length sc <=? 1)%nat ||
    (sumZ (map (fun o => match o with Some (_, (_, h, v, _)) => h * v | None => 0 end) found) <=? 10)).
 
+(* G.1.1.1: a band is first coded with Ah = 0, each refinement has Ah = the previous Al; AC
+   scans of a component come after its first DC scan *)
+Fixpoint assoc_prog (l : list (Z * list Z)) (id : Z) : list Z :=
+  match l with [] => repeat (-1) 64 | (k, v) :: t => if k =? id then v else assoc_prog t id end.
+Definition prog_scan_ok (pg : list (Z * list Z)) (id ss se ah : Z) : bool :=
+  let cur := assoc_prog pg id in
+  ((ss =? 0) || negb (nthZ cur 0 =? -1)) &&
+  forallb (fun k => if ah =? 0 then nthZ cur k =? -1 else nthZ cur k =? ah) (map (fun i => ss + i) (zrange (se - ss + 1))).
+Definition prog_update (pg : list (Z * list Z)) (ids : list Z) (ss se al : Z) : list (Z * list Z) :=
+  fold_left (fun acc id =>
+               (id, map (fun kv : Z * Z => if (ss <=? fst kv) && (fst kv <=? se) then al else snd kv)
+                        (combine (zrange 64) (assoc_prog acc id))) :: acc) ids pg.
+
 Definition v_step (st : vstate) (s : segment) : option vstate :=
   match s with
   | SegDQT tabs =>
       Some {| vs_sof := vs_sof st;
               vs_q := fold_left (fun q (t : qtab) => let '(_, tq, _) := t in set_nth (Z.to_nat tq) true q) tabs (vs_q st);
-              vs_dc := vs_dc st; vs_ac := vs_ac st; vs_ri := vs_ri st; vs_scans := vs_scans st; vs_coded := vs_coded st |}
+              vs_dc := vs_dc st; vs_ac := vs_ac st; vs_ri := vs_ri st; vs_scans := vs_scans st; vs_coded := vs_coded st; vs_prog := vs_prog st |}
   | SegDHT tabs =>
       Some {| vs_sof := vs_sof st; vs_q := vs_q st;
               vs_dc := fold_left (fun d (t : htab) => let '(tc, th, _, _) := t in if tc =? 0 then set_nth (Z.to_nat th) true d else d) tabs (vs_dc st);
               vs_ac := fold_left (fun d (t : htab) => let '(tc, th, _, _) := t in if tc =? 1 then set_nth (Z.to_nat th) true d else d) tabs (vs_ac st);
-              vs_ri := vs_ri st; vs_scans := vs_scans st; vs_coded := vs_coded st |}
+              vs_ri := vs_ri st; vs_scans := vs_scans st; vs_coded := vs_coded st; vs_prog := vs_prog st |}
   | SegDAC _ => Some st
   | SegDRI ri =>
       Some {| vs_sof := vs_sof st; vs_q := vs_q st; vs_dc := vs_dc st; vs_ac := vs_ac st;
-              vs_ri := ri; vs_scans := vs_scans st; vs_coded := vs_coded st |}
+              vs_ri := ri; vs_scans := vs_scans st; vs_coded := vs_coded st; vs_prog := vs_prog st |}
   | SegAPP _ _ | SegCOM _ => Some st
   | SegSOF n p y x comps =>
       match vs_sof st with
@@ -421,7 +436,7 @@ Definition v_step (st : vstate) (s : segment) : option vstate :=
            nodupZ (map (fun c : fcomp => let '(ci, _, _, _) := c in ci) comps) &&
            (if sof_lossless n then forallb (fun c : fcomp => let '(_, _, _, tq) := c in tq =? 0) comps else true)
         then Some {| vs_sof := Some (n, p, y, x, comps); vs_q := vs_q st; vs_dc := vs_dc st; vs_ac := vs_ac st;
-                     vs_ri := vs_ri st; vs_scans := vs_scans st; vs_coded := vs_coded st |}
+                     vs_ri := vs_ri st; vs_scans := vs_scans st; vs_coded := vs_coded st; vs_prog := vs_prog st |}
         else None
       end
   | SegSOS sc ss se ah al first rest =>
@@ -449,9 +464,11 @@ Definition v_step (st : vstate) (s : segment) : option vstate :=
              else match find_comp fc cs O with Some (_, (_, _, _, tq)) => getb (vs_q st) tq | None => false end)) sc in
         let fresh := if sof_progressive n then true
                      else forallb (fun id => negb (existsb (Z.eqb id) (vs_coded st))) ids in
-        if scan_comps_ok fc sc && spectral && tables && fresh
+        let approx := if sof_progressive n then forallb (fun id => prog_scan_ok (vs_prog st) id ss se ah) ids else true in
+        if scan_comps_ok fc sc && spectral && tables && fresh && approx
         then Some {| vs_sof := vs_sof st; vs_q := vs_q st; vs_dc := vs_dc st; vs_ac := vs_ac st;
-                     vs_ri := vs_ri st; vs_scans := S (vs_scans st); vs_coded := ids ++ vs_coded st |}
+                     vs_ri := vs_ri st; vs_scans := S (vs_scans st); vs_coded := ids ++ vs_coded st;
+                     vs_prog := if sof_progressive n then prog_update (vs_prog st) ids ss se al else vs_prog st |}
         else None
       end
   end.
@@ -754,7 +771,6 @@ Definition dec_scan (cs : coders) (ncomp : nat) (per : Z) (js : list nat) (ds : 
   dec_intervals cs ncomp (intervals per js) ds.
 
 (* ======================================= A.1.1, A.2.3, A.2.4 geometry / MCU order === *)
-Definition zrange (n : Z) : list Z := map Z.of_nat (seq 0 (Z.to_nat n)).
 
 Record geom := { g_y : Z; g_x : Z; g_hmax : Z; g_vmax : Z }.
 Definition geom_of (y x : Z) (fc : list fcomp) : geom :=
